@@ -7,6 +7,7 @@ mod catalogue;
 mod derived;
 mod modeled;
 mod rng;
+mod stacks;
 mod streams;
 
 use std::collections::BTreeMap;
